@@ -65,6 +65,36 @@ def _release(cm):
         ent[0] = None
 
 
+def _lock_call(obj, meth, *args, **kwargs):
+    """explicit <lock>.acquire(...) / <lock>.release() inside the rewritten function go to the model lock as well"""
+    if not _is_lock(obj):
+        return getattr(obj, meth)(*args, **kwargs)
+    if meth == "release":
+        ent = _LOCKS.get(id(obj))
+        if ent is None or ent[1] == 0 or ent[0] != _CUR[0]:
+            raise RuntimeError("cannot release un-acquired lock")
+        return _release(obj)
+    blocking = args[0] if args else kwargs.get("blocking", True)
+    timeout = args[1] if len(args) > 1 else kwargs.get("timeout", -1)
+    if lock_free_for(obj, _CUR[0]):
+        _acquire(obj)
+        return True
+    if blocking and timeout == -1:
+        # a blocking acquire in the middle of a statement cannot be suspended in this model
+        raise Untranslatable("blocking acquire() of a held lock outside an expression statement")
+    return False                                        # non-blocking / timed acquire of a held lock: gives up
+
+
+class _LockCalls(ast.NodeTransformer):
+    def visit_Call(self, node):
+        self.generic_visit(node)
+        if isinstance(node.func, ast.Attribute) and node.func.attr in ("acquire", "release"):
+            return ast.copy_location(
+                ast.Call(ast.Name("_stmt_lock_call", ast.Load()), [node.func.value, ast.Constant(node.func.attr)] + node.args,
+                         node.keywords), node)
+        return node
+
+
 class _Rewriter:
     def __init__(self, line0):
         self.line0 = line0
@@ -120,6 +150,18 @@ class _Rewriter:
                 ast.If(ast.Call(ast.Name("_stmt_is_lock", ast.Load()), [ast.Name(var, ast.Load())], []),
                        locked, [self._yield(st), plain]),
             ]
+        if isinstance(st, ast.Expr) and isinstance(st.value, ast.Call) and isinstance(st.value.func, ast.Attribute) \
+                and st.value.func.attr == "acquire" and not st.value.args and not st.value.keywords:
+            # <lock>.acquire() as a statement of its own: announced like 'with', resumed only while the lock is free
+            self.n += 1
+            var = "_stmt_cm%d" % self.n
+            name = ast.Name(var, ast.Load())
+            return [
+                ast.Assign([ast.Name(var, ast.Store())], st.value.func.value),
+                ast.If(ast.Call(ast.Name("_stmt_is_lock", ast.Load()), [name], []),
+                       [self._yield(st, "acquire", name), ast.Expr(ast.Call(ast.Name("_stmt_acquire", ast.Load()), [name], []))],
+                       [self._yield(st), ast.Expr(ast.Call(ast.Attribute(name, "acquire", ast.Load()), [], []))]),
+            ]
         return [self._yield(st), st]
 
 
@@ -140,13 +182,14 @@ def steps(fn):
     if body and isinstance(body[0], ast.Expr) and isinstance(body[0].value, ast.Constant) and isinstance(body[0].value.value, str):
         doc, body = body[:1], body[1:]
     fdef.body = doc + rw.block(body)
+    _LockCalls().visit(fdef)
     fdef.name = fn.__name__ + "__steps"
     fdef.returns = None
     for a in fdef.args.args + fdef.args.kwonlyargs:
         a.annotation = None
     ast.fix_missing_locations(tree)
     ns = dict(fn.__globals__)
-    ns.update(_stmt_acquire=_acquire, _stmt_release=_release, _stmt_is_lock=_is_lock)
+    ns.update(_stmt_acquire=_acquire, _stmt_release=_release, _stmt_is_lock=_is_lock, _stmt_lock_call=_lock_call)
     exec(compile(tree, "<steps of %s>" % fn.__qualname__, "exec"), ns)
     return ns[fdef.name]
 
